@@ -49,7 +49,6 @@ Definition inventory : list (string * string * Z * string) := [
   ("mem_safe_mem_constraint", "thrd_mem_handler", 8%Z, "b");
   ("str_safe_str_constraint", "str_handler", 8%Z, "b");
   ("str_safe_str_constraint", "thrd_str_handler", 8%Z, "b");
-  ("str_strerror_s", "errmsgs_s", 88%Z, "d");
-  ("str_vsnprintf_s", "buf.1", 64%Z, "b")
+  ("str_strerror_s", "errmsgs_s", 88%Z, "d")
 ].
 Definition known_finding_statics : list (string * string) := [("io_tmpfile_s", "count.0")].
